@@ -210,25 +210,31 @@ func (w *World) allocFieldsFresh(fn *ssa.Function, al *ssa.Alloc, t types.Type, 
 	return true, ""
 }
 
+// isCloneMethod: a parameterless method (*T) -> *T on one of the two statement types.
+func isCloneMethod(fn *ssa.Function) bool {
+	sig := fn.Signature
+	if sig.Recv() == nil || sig.Params().Len() != 0 || sig.Results().Len() != 1 || fn.Parent() != nil {
+		return false
+	}
+	rt := sig.Results().At(0).Type()
+	rn := namedOf(rt)
+	if rn != namedOf(sig.Recv().Type()) {
+		return false
+	}
+	if _, isPtr := rt.Underlying().(*types.Pointer); !isPtr {
+		return false
+	}
+	return rn == "ngo/verifier/trustpolicy.OCITrustPolicy" || rn == "ngo/verifier/trustpolicy.BlobTrustPolicy"
+}
+
 func c08Clones(c *Ctx) {
 	w := c.W
 	n := 0
 	for _, fn := range w.FuncsOfPkg("verifier/trustpolicy") {
-		sig := fn.Signature
-		if sig.Recv() == nil || sig.Params().Len() != 0 || sig.Results().Len() != 1 || fn.Parent() != nil {
+		if !isCloneMethod(fn) {
 			continue
 		}
-		rt := sig.Results().At(0).Type()
-		rn := namedOf(rt)
-		if rn != namedOf(sig.Recv().Type()) {
-			continue
-		}
-		if _, isPtr := rt.Underlying().(*types.Pointer); !isPtr {
-			continue
-		}
-		if rn != "ngo/verifier/trustpolicy.OCITrustPolicy" && rn != "ngo/verifier/trustpolicy.BlobTrustPolicy" {
-			continue
-		}
+		rt := fn.Signature.Results().At(0).Type()
 		n++
 		c.SeenFn(fn.String())
 		ok := true
@@ -323,16 +329,22 @@ func c08ReturnsClones(c *Ctx, fn *ssa.Function) {
 			continue
 		}
 		n++
+		seenPhi := map[*ssa.Phi]bool{}
 		var check func(v ssa.Value, depth int) bool
 		check = func(v ssa.Value, depth int) bool {
-			if depth > 4 {
+			if depth > 8 {
 				return false
 			}
 			switch x := v.(type) {
 			case *ssa.Call:
+				// a clone by role: a method (*T) -> *T of a statement type without parameters (checked by clone/… to share nothing)
 				g := staticCallee(x)
-				return g != nil && g.Name() == "clone" || (g != nil && strings.Contains(strings.ToLower(g.Name()), "clone"))
+				return g != nil && isCloneMethod(g)
 			case *ssa.Phi:
+				if seenPhi[x] {
+					return true // loop-carried value: its other edges are checked where first met
+				}
+				seenPhi[x] = true
 				for _, e := range x.Edges {
 					if isNilConst(e) || e == v {
 						continue
